@@ -23,7 +23,8 @@ type Row = (i64, i64);
 type GRow = (i64, Vec<i64>);
 
 #[derive(Clone, Debug)]
-struct OpDesc { code: char, arg: i64, kp: bool, vo: bool, rs: bool, cost: u8 }
+struct OpDesc { code: char, arg: i64, kp: bool, vo: bool, rs: bool, cost: u8, /// relies on the trait's DEFAULT `reorder_safe_with_value_only` (documented: false)
+    defaulting: bool }
 
 struct CustomOp(OpDesc);
 impl DynOp for CustomOp {
@@ -52,6 +53,16 @@ impl DynOp for CustomOp {
     fn key_preserving(&self) -> bool { self.0.kp }
     fn value_only(&self) -> bool { self.0.vo }
     fn reorder_safe_with_value_only(&self) -> bool { self.0.rs }
+    fn cost_hint(&self) -> u8 { self.0.cost }
+}
+
+/// same semantics, but does NOT override `reorder_safe_with_value_only` (and, when its cost is 10, not
+/// `cost_hint` either): what a user-written operator that only states the two descriptive flags looks like
+struct DefaultingOp(OpDesc);
+impl DynOp for DefaultingOp {
+    fn apply(&self, input: Partition) -> Partition { CustomOp(self.0.clone()).apply(input) }
+    fn key_preserving(&self) -> bool { self.0.kp }
+    fn value_only(&self) -> bool { self.0.vo }
     fn cost_hint(&self) -> u8 { self.0.cost }
 }
 
@@ -88,7 +99,7 @@ fn build_chain(desc: &[ND]) -> Built {
         chain.push(match n {
             ND::Src(rows) => Node::Source { payload: Arc::new(rows.clone()), vec_ops: vec_ops_for::<Row>(), elem_tag: TypeTag::of::<Row>() },
             ND::St(ds) => Node::Stateless(ds.iter().map(|d| {
-                let a: Arc<dyn DynOp> = Arc::new(CustomOp(d.clone()));
+                let a: Arc<dyn DynOp> = if d.defaulting { Arc::new(DefaultingOp(d.clone())) } else { Arc::new(CustomOp(d.clone())) };
                 ops.push((Arc::as_ptr(&a) as *const (), format!("{}{}", d.code, d.arg)));
                 a
             }).collect()),
@@ -205,14 +216,19 @@ fn planx_case(cx: &mut Ctx, desc: &[ND]) {
 
 fn gen_op(cx: &mut Ctx, group_typed: bool, honest: bool) -> OpDesc {
     if group_typed {
-        return OpDesc { code: 'H', arg: 0, kp: cx.rng.chance(1, 2), vo: false, rs: cx.rng.chance(1, 2), cost: *cx.rng.pick(&[1, 5, 10]) };
+        return OpDesc { code: 'H', arg: 0, kp: cx.rng.chance(1, 2), vo: false, rs: cx.rng.chance(1, 2), cost: *cx.rng.pick(&[1, 5, 10]), defaulting: false };
     }
     let code = *cx.rng.pick(&['A', 'A', 'M', 'F', 'F', 'K', 'D', 'H']);
     let arg = match code { 'A' => cx.rng.range(-2, 3), 'M' => cx.rng.range(2, 3), 'F' => cx.rng.range(2, 3), 'K' => cx.rng.range(1, 2), _ => 0 };
     let value_only = matches!(code, 'A' | 'M' | 'F');
     let (kp, vo, rs) = if honest { (code != 'K', value_only, value_only) } else { (cx.rng.chance(3, 4), cx.rng.chance(3, 4), cx.rng.chance(3, 4)) };
     let cost = *cx.rng.pick(&[0u8, 1, 1, 2, 3, 3, 10, 255]);
-    OpDesc { code, arg, kp, vo, rs, cost }
+    // one op in five leaves `reorder_safe_with_value_only` to the trait default (false)
+    if cx.rng.chance(1, 5) {
+        cx.count("op:relies-on-trait-default-reorder-flag");
+        return OpDesc { code, arg, kp: if honest { code != 'K' } else { true }, vo: if honest { value_only } else { true }, rs: false, cost, defaulting: true };
+    }
+    OpDesc { code, arg, kp, vo, rs, cost, defaulting: false }
 }
 
 fn gen_rows(cx: &mut Ctx) -> Vec<Row> { (0..cx.rng.below(9)).map(|_| (cx.rng.range(0, 3), cx.rng.range(-4, 9))).collect() }
@@ -248,7 +264,7 @@ fn gen_exec_chain(cx: &mut Ctx, honest: bool) -> Vec<ND> {
     }
     if cx.rng.chance(1, 6) {
         c.push(ND::Gbk);
-        c.push(ND::St(vec![OpDesc { code: 'G', arg: 0, kp: true, vo: false, rs: false, cost: 10 }]));
+        c.push(ND::St(vec![OpDesc { code: 'G', arg: 0, kp: true, vo: false, rs: false, cost: 10, defaulting: false }]));
     }
     c
 }
@@ -283,7 +299,8 @@ fn explain_case(cx: &mut Ctx, prog: &pipe::Prog) {
 
 pub fn run(cx: &mut Ctx) {
     // corpus: the shapes the property names
-    let op = |code, arg, kp, vo, rs, cost| OpDesc { code, arg, kp, vo, rs, cost };
+    let op = |code, arg, kp, vo, rs, cost| OpDesc { code, arg, kp, vo, rs, cost, defaulting: false };
+    let dop = |code, arg, cost| OpDesc { code, arg, kp: true, vo: true, rs: false, cost, defaulting: true };
     let src = vec![(0, 1), (0, 2), (1, 3)];
     let corpus: Vec<Vec<ND>> = vec![
         vec![ND::Src(src.clone()), ND::St(vec![op('A', 1, true, true, true, 3)]), ND::St(vec![op('F', 2, true, true, true, 1)])],
@@ -293,9 +310,12 @@ pub fn run(cx: &mut Ctx) {
         vec![ND::Src(src.clone()), ND::Mat(src.clone()), ND::St(vec![op('A', 1, true, true, true, 3)]), ND::Mat(src.clone())],
         vec![ND::Src(src.clone()), ND::St(vec![op('A', 1, true, true, true, 3), op('K', 1, false, false, false, 1), op('F', 2, true, true, true, 1)])],
         vec![ND::Src(src.clone()), ND::St(vec![op('A', 1, true, true, true, 2), op('M', 2, true, true, true, 2), op('A', 2, true, true, true, 2)])],
+        // a value-only, key-preserving op that does NOT claim reorder safety pins its block
+        vec![ND::Src(src.clone()), ND::St(vec![dop('M', 2, 10)]), ND::St(vec![op('F', 2, true, true, true, 1)])],
+        vec![ND::Src(src.clone()), ND::St(vec![op('A', 1, true, true, true, 3), dop('A', 1, 10), op('F', 2, true, true, true, 1)])],
     ];
     for c in &corpus { plan_case(cx, c); }
-    for c in &[corpus[0].clone(), corpus[1].clone(), corpus[3].clone(), corpus[5].clone(), corpus[6].clone()] { planx_case(cx, c); }
+    for c in &[corpus[0].clone(), corpus[1].clone(), corpus[3].clone(), corpus[5].clone(), corpus[6].clone(), corpus[7].clone(), corpus[8].clone()] { planx_case(cx, c); }
 
     let n = cx.budget(1500, 30000);
     for _ in 0..n { let c = gen_struct_chain(cx); plan_case(cx, &c); }
